@@ -12,6 +12,8 @@ import (
 	"github.com/openconfig/gribigo/compliance"
 	"github.com/openconfig/gribigo/server"
 	"google.golang.org/grpc"
+	"google.golang.org/grpc/codes"
+	"google.golang.org/grpc/status"
 	"google.golang.org/protobuf/proto"
 
 	"verif/harness/ribx"
@@ -38,6 +40,9 @@ type faulty struct {
 	first     *spb.SessionParameters // parameters of the first session that negotiated (mismatched-params fault)
 	primary   *modWrap               // stream of the last winning announcement (flush-on-new-primary fault)
 }
+
+// errSession is what the session-level faults end a Modify RPC with.
+var errSession = status.Error(codes.FailedPrecondition, "injected: session refused")
 
 func newFaulty(s *server.Server, kind string) *faulty {
 	return &faulty{inner: s, kind: kind, installed: map[string]bool{}}
@@ -154,6 +159,34 @@ var faultTable = []struct {
 	{"next-hop-group-unsupported", "answers FAILED to every next-hop-group ADD", func(tt *compliance.TestSpec) bool {
 		return has(tt, "Add next-hop-group entry that can be resolved on the server, no referencing IPv4 entries")
 	}},
+	// (added after the statement-coverage audit: the failure branches of these tests were never taken by any fault)
+	{"flush-result-not-ok", "flushes correctly but reports NON_ZERO_REFERENCE_REMAIN instead of OK", func(tt *compliance.TestSpec) bool {
+		return has(tt, "Flush of all entries in default NI by elected master", "Flush from client overriding election is honoured", "Flush to specific network instance is honoured", "Flush non-default network instances preserves the default")
+	}},
+	{"flush-rejected", "rejects every authorised, well-formed Flush with Internal", func(tt *compliance.TestSpec) bool {
+		return has(tt, "Flush of all entries in default NI by elected master", "Flush from client overriding election is honoured", "Flush to specific network instance is honoured", "Flush non-default network instances preserves the default")
+	}},
+	{"flush-not-primary-wrong-code", "rejects the Flush of a non-primary id with InvalidArgument instead of FailedPrecondition", func(tt *compliance.TestSpec) bool {
+		return has(tt, "Flush from non-elected master returns error")
+	}},
+	{"flush-without-instance-wrong-code", "rejects a Flush that names no network instance with FailedPrecondition instead of InvalidArgument", func(tt *compliance.TestSpec) bool {
+		return has(tt, "Flush without specifying network instance returns error")
+	}},
+	{"flush-without-instance-no-details", "rejects a Flush that names no network instance with the right code but without error details", func(tt *compliance.TestSpec) bool {
+		return has(tt, "Flush without specifying network instance returns error")
+	}},
+	{"flush-without-instance-wrong-details", "rejects a Flush that names no network instance with the right code but details that name another reason", func(tt *compliance.TestSpec) bool {
+		return has(tt, "Flush without specifying network instance returns error")
+	}},
+	{"get-rejected", "answers every Get with Internal", func(tt *compliance.TestSpec) bool {
+		return has(tt, "Get for installed NH -", "Get for installed NHG -", "Get for installed IPv4 Entry -", "Get for installed IPv6 Entry -", "Get for installed chain of entries")
+	}},
+	{"second-session-rejected", "ends the Modify RPC of every session that negotiates while another session is connected, although the parameters match", func(tt *compliance.TestSpec) bool {
+		return has(tt, "Election - Matching parameters for two clients in election", "Election - Lower election ID from new client", "Election - Sending same election ID from two clients")
+	}},
+	{"mismatch-ends-both-sessions", "ends the first session too when a second one presents differing parameters", func(tt *compliance.TestSpec) bool {
+		return has(tt, "Election - Ensure client with differing parameters is rejected", "Election - Ensure that a client with mismatched parameters is rejected")
+	}},
 }
 
 func has(tt *compliance.TestSpec, subs ...string) bool {
@@ -182,6 +215,7 @@ type modWrap struct {
 	allPrimary bool
 	ops        map[uint64]*spb.AFTOperation
 	known      map[string]bool
+	kill       bool // the next Recv of this stream fails (session-level faults)
 }
 
 func (f *faulty) Modify(ms spb.GRIBI_ModifyServer) error {
@@ -218,6 +252,38 @@ func (m *modWrap) Recv() (*spb.ModifyRequest, error) {
 			return in, err
 		}
 		f := m.f
+		f.mu.Lock()
+		if m.kill {
+			f.mu.Unlock()
+			return nil, errSession
+		}
+		f.mu.Unlock()
+		switch f.kind {
+		case "second-session-rejected":
+			f.mu.Lock()
+			n := len(f.streams)
+			f.mu.Unlock()
+			if in.Params != nil && n > 1 {
+				return nil, errSession
+			}
+		case "mismatch-ends-both-sessions":
+			if in.Params != nil {
+				f.mu.Lock()
+				differ := f.first != nil && !proto.Equal(f.first, in.Params)
+				if f.first == nil {
+					f.first = in.Params
+				}
+				if differ {
+					for _, o := range f.streams {
+						o.kill = true
+					}
+				}
+				f.mu.Unlock()
+				if differ {
+					return nil, errSession
+				}
+			}
+		}
 		f.mu.Lock()
 		f.prevMax = f.maxElec
 		if in.ElectionId != nil && in.ElectionId.High == 0 && in.ElectionId.Low > f.maxElec {
@@ -491,6 +557,9 @@ func (g *getWrap) Send(r *spb.GetResponse) error {
 }
 
 func (f *faulty) Get(req *spb.GetRequest, gs grpc.ServerStreamingServer[spb.GetResponse]) error {
+	if f.kind == "get-rejected" {
+		return status.Error(codes.Internal, "injected: Get refused")
+	}
 	if f.kind != "get-drops-entry" && f.kind != "get-stale" && f.kind != "get-wrong-network-instance" {
 		return f.inner.Get(req, gs)
 	}
@@ -544,7 +613,49 @@ func (f *faulty) Flush(ctx context.Context, req *spb.FlushRequest) (*spb.FlushRe
 			req = &spb.FlushRequest{Election: req.Election, NetworkInstance: &spb.FlushRequest_All{All: &spb.Empty{}}}
 		}
 	}
-	return f.inner.Flush(ctx, req)
+	res, err := f.inner.Flush(ctx, req)
+	switch f.kind {
+	case "flush-result-not-ok":
+		if err == nil {
+			res = &spb.FlushResponse{Timestamp: res.GetTimestamp(), Result: spb.FlushResponse_NON_ZERO_REFERENCE_REMAIN}
+		}
+	case "flush-rejected":
+		if err == nil {
+			return nil, status.Error(codes.Internal, "injected: Flush refused")
+		}
+	case "flush-not-primary-wrong-code":
+		if status.Code(err) == codes.FailedPrecondition {
+			return nil, reCode(err, codes.InvalidArgument, true)
+		}
+	case "flush-without-instance-wrong-code":
+		if req.GetNetworkInstance() == nil && err != nil {
+			return nil, reCode(err, codes.FailedPrecondition, true)
+		}
+	case "flush-without-instance-no-details":
+		if req.GetNetworkInstance() == nil && err != nil {
+			return nil, reCode(err, status.Code(err), false)
+		}
+	case "flush-without-instance-wrong-details":
+		if req.GetNetworkInstance() == nil && err != nil {
+			st, derr := status.New(status.Code(err), status.Convert(err).Message()).WithDetails(&spb.FlushResponseError{Status: spb.FlushResponseError_NOT_PRIMARY})
+			if derr != nil {
+				panic(derr)
+			}
+			return nil, st.Err()
+		}
+	}
+	return res, err
+}
+
+// reCode rebuilds a status error with another code, keeping (or dropping) its details.
+func reCode(err error, c codes.Code, keepDetails bool) error {
+	old := status.Convert(err)
+	p := old.Proto()
+	p.Code = int32(c)
+	if !keepDetails {
+		p.Details = nil
+	}
+	return status.FromProto(p).Err()
 }
 
 // fault runs every eligible test against the wrapper: the designated tests must fail (the others are recorded).
